@@ -39,14 +39,14 @@ PROPS = {
     },
     "C03": {
         "engine": "A+B+C", "level": "exploration",
-        "tiers": {"quick": {"batches": 16, "runs": 70, "budget_s": 55, "floor_runs": 500},
+        "tiers": {"quick": {"batches": 16, "runs": 50, "budget_s": 70, "floor_runs": 400},
                   "thorough": {"batches": 64, "runs": 1200, "budget_s": 800, "floor_runs": 20000}},
         "rule": "same workloads as C02; every emitted SerialHugr document (and Package document, and the document a restarted reader node re-emits) is validated against specification/schema/hugr_schema_strict_live.json, checked for index sanity, and - for HUGRs whose links attach only to ports their operations have (all builder products; engine-A histories in in-range mode) - every in-memory link must be addressed in the document at the offset refsem predicts from the serialised op (value port = signature position, static port after the value inputs, order port after those), independently of how many ports are connected; non-trivial = >= 3 calls; distinct = distinct event-log digests", "real": ["Hugr / Package serialisation, _serialization models", "jsonschema validation against the published strict schema file", "reader node (separate interpreter) for re-emitted documents"], "stub": ["Rust reader (serialize.rs) -> oracles/wire.py + refsem.py"], "expected_probes": ["serialised_after_deletion", "serialised_after_index_reuse", "index_order_not_hierarchy_consistent", "restart_read"], "technique": "seeded build + mutation histories (deletion, index reuse, partially connected multi-output nodes with order edges), documents judged by the published strict JSON schema + index sanity + a reader-side port-addressing model; a restarted reader node re-emits and is judged too", "level_text": "What can break the wire format is history: deletions and index reuse (index sanity), and the order in which builders happened to link ports (order-edge offsets). The check reuses the C02 workloads and judges every emitted document with the published strict schema and with an independent model of the reader's addressing contract (serialize.rs), never with hugr-py's own port counters.", "level_note": "Trusted: jsonschema 4.26 (offline wheelhouse, installed into /verif/.deps), the published strict schema file, oracles/refsem.py for port addressing, oracles/wire.py. Extension documents are validated in C10's check.",
     },
     "C04": {
         "engine": "A", "level": "exploration",
-        "tiers": {"quick": {"batches": 16, "runs": 400, "budget_s": 45, "floor_runs": 1500},
-                  "thorough": {"batches": 64, "runs": 4000, "budget_s": 500, "floor_runs": 50000}},
+        "tiers": {"quick": {"batches": 16, "runs": 300, "budget_s": 70, "floor_runs": 1500},
+                  "thorough": {"batches": 64, "runs": 4000, "budget_s": 700, "floor_runs": 50000}},
         "rule": "one run = 1-3 client actors sharing one Hugr (plus 0-2 auxiliary HUGRs with their own actor, used as "
                 "insertion sources); the seeded scheduler picks which actor makes the next call among add_node / add_const / "
                 "add_link / add_order_link / delete_link (existing, parallel, middle-of-fan-out, absent) / delete_node (leaf) / "
